@@ -31,7 +31,7 @@ GEN_PREFIXES = []
 THEOREMS = {
     "Proofs.C20": ["VerifModel.C20." + t for t in [
         "C20_accumulate", "C20_accumulate_too_long", "C20_accumulate_missing_iff", "C20_cumulative",
-        "C20_accumulate_w1", "C20_accumulate_axis",
+        "C20_accumulate_w1", "C20_accumulate_axis", "C20_accumulate_file", "C20_accumulate_file_total",
         "C20_cdf", "C20_cdf_bounds", "C20_cdf_mono", "C20_cdf_missing",
         "C20_quantile", "C20_quantile_single", "C20_quantile_def",
         "C20_pit", "C20_pit_missing_obs",
@@ -59,7 +59,8 @@ ASSUMPTIONS = [
     "fcst unwritten because the time/lead grid changes) are read as 'not carried over', not as 'not preserved'",
     "the CDF at t is the fraction of non-missing members strictly below t (consistent with PIT = fraction below "
     "the observation)",
-    "accumulate/window on a file without obs or fcst is outside the modelled domain (the oracle still speaks there)",
+    "window on a file without obs or fcst is outside the modelled domain (not generated; the oracle still speaks there); "
+    "accumulate on such a file is modelled (C20_accumulate_file)",
 ]
 RULE = ("seeded random files: 1-4 times x 1-6 lead times x 1-3 locations, values on a 1/4 grid in [-2,8], missing "
         "cells/series/fields, 1-6 members (with ties and missing members); NetCDF (NaN or masked) and text (unixtime "
@@ -799,11 +800,10 @@ def _reply_eq(x, y):
 def _in_domain(op):
     """is the op inside the domain on which the model mirrors the code (else only the oracle speaks)"""
     a = op.split(" ")
-    if a[0] in ("acc", "win"):
-        nopt = 4 if a[0] == "acc" else 3
-        file = a[nopt:nopt + NFILE]
+    if a[0] == "win":
+        file = a[3:3 + NFILE]
         if file[9] == "none" or file[10] == "none":
-            return False          # the script has no guard for an absent field (known finding)
+            return False          # window.py has no guard for an absent field (such files are not generated)
     return True
 
 
